@@ -1,4 +1,5 @@
 import ErbiumModel.Lemmas.Pool
+import ErbiumModel.Lemmas.LeaseJson
 /-! # C20 — the lease listing and the lease gauges report the lease store truthfully -/
 namespace Erbium.Props.C20
 open Erbium Erbium.Pool Erbium.Generated.Pool
@@ -44,5 +45,38 @@ theorem C20_gauges_partition (s : Store) (now : Nat) :
 
 example : metrics [] 5 = some (0, 0) := by decide
 example : metrics [⟨1, [1], 0, 10, []⟩, ⟨2, [2], 0, 5, []⟩, ⟨3, [3], 0, 4, []⟩] 5 = some (1, 2) := by decide
+
+open Erbium.LeaseReport Erbium.Spec.Json in
+/-- **C20 (the listing).** For every list of stored leases the body of `leases.json` is a JSON document in the sense
+    of RFC 8259 (`Spec/Json.lean`: the grammar as a relation between texts and values) and it denotes
+    `{"leases": [e₁, …, eₙ]}` with exactly one object per lease, in order, each carrying that lease's address,
+    client identifier, start, expiry and — when the stored options have one — host name, **whatever characters the
+    host name contains** (quotation marks, reverse solidus and control characters are escaped so that the text
+    denotes exactly them). -/
+theorem C20_listing_denotes_store (rows : List LRow) : Denotes (render rows) (listingV rows) := render_denotes rows
+
+open Erbium.LeaseReport Erbium.Spec.Json in
+/-- exactly one entry per lease -/
+theorem C20_one_entry_per_lease (rows : List LRow) :
+    listingV rows = .obj [("leases".toList, .arr (rows.map rowV))] ∧ (rows.map rowV).length = rows.length :=
+  ⟨rfl, List.length_map _⟩
+
+open Erbium.LeaseReport Erbium.Spec.Json in
+/-- `json_string` alone: the text between the quotation marks denotes exactly the characters given — for every string -/
+theorem C20_host_name_any_characters (h : List Char) : StrBody (jsonStringBody h) h := jsonStringBody_spec h
+
+open Erbium.LeaseReport Erbium.Spec.Json in
+/-- numbers are written without loss: the digits are a JSON integer (no leading zero, no sign) whose value is the
+    number, so two different start or expiry times never print alike -/
+theorem C20_numbers_exact (a b : Nat) (h : dec a = dec b) : a = b := by
+  have ha := (dec_spec a).1.2.2.2
+  have hb := (dec_spec b).1.2.2.2
+  rw [h] at ha; omega
+
+open Erbium.LeaseReport in
+/-- non-vacuity: a lease whose host name holds a quotation mark, a reverse solidus, a bell and a non-ASCII letter -/
+example : render [{ ip := 3232235777, client := [1, 171], start := 5, expire := 3605, host := some ['a', '"', '\\', Char.ofNat 7, 'é'] }] =
+    "{ \"leases\" : [\n { \"ip\": \"192.168.1.1\", \"client_id\": \"01:ab\", \"start\": 5, \"expire\": 3605, \"host-name\": \"a\\\"\\\\\\u0007é\" }\n]}\n".toList := by
+  decide +kernel
 
 end Erbium.Props.C20
